@@ -436,6 +436,20 @@ def run(ctx):
         ctx.known("C02-incparse-panic AnalyzedSource::update panics (`Parser cannot fail` / slice out of range in parser::update) on %d of %d "
                   "generated edit histories, each predicted by the model of the pinned incremental parser; the broker task dies and "
                   "the server stops answering document requests (%d of the binary sessions)" % (known_panics, len(hl), known_sess))
+    # ---- the stack: recursion depth of the parser is bounded by the 64 MiB thread stack only (DESIGN 10.3)
+    stack_listed = any(e.get("id") == "C02-stack-exhaustion" for e in common.load_known_findings("C02"))
+    probe_depth = 3000
+    probe_text = "proc main() {\n" + "if (1 = 1) {\n" * probe_depth + "}\n" * probe_depth + "}\n"
+    probe = session(exe, probe_text, [], ctx.seed, per_method=1, timeout=60.0)
+    ctx.cov["stack_probe"] = dict(nested_if_statements=probe_depth, answered=bool(probe.get("ok")))
+    if not probe.get("ok"):
+        if stack_listed:
+            ctx.known("C02-stack-exhaustion a document with %d nested if statements ends the server (stack overflow in the recursive-descent "
+                      "parser; 64 MiB per thread: about 950 nested if / while statements or 2500 nested blocks in the debug build); "
+                      "nesting up to 400 of every recursive construct is answered in every run" % probe_depth)
+        else:
+            ctx.violation(dict(kind="oracle", property="C02", what="the server dies on a deeply nested document: " + str(probe.get("problem")),
+                               text=probe_text[:200] + " ...", nested_if_statements=probe_depth, seed=ctx.seed, edits=[], raw_edits=[], server_args=[]))
     hist = {}
     for k, _ in docs:
         hist[k] = hist.get(k, 0) + 1
